@@ -29,8 +29,10 @@ static const struct {
 	{ "two strings %s %s\n", 2, "ss" },
 	{ "percent %% literal %lu\n", 1, "u" },
 	{ "%s%s%s\n", 3, "sss" },
+	{ "width %*lu|%lu\n", 3, "wuu" },   /* '*' takes its width from the argument list: still three arguments */
+	{ "%-*s|\n", 2, "ws" },
 };
-#define NFMT 12
+#define NFMT 14
 
 int am_nfmt(void) { return NFMT; }
 int am_nargs(int f) { return F[f].nargs; }
@@ -39,6 +41,8 @@ static uintptr_t arg(int f, int i, unsigned long v)
 {
 	if (i < F[f].nargs && F[f].kinds[i] == 's')
 		return (uintptr_t)STRS[v % NSTR];
+	if (i < F[f].nargs && F[f].kinds[i] == 'w')
+		return (uintptr_t)(v % 12); /* a field width */
 	return (uintptr_t)v;
 }
 
